@@ -39,7 +39,7 @@ func (p c10) Run(c *core.Ctx) {
 	var holders []any
 	family := "pop"
 	var providers []any // providers outside the palette (lean / rich / zero-size), the same objects in every run
-	var dups []any     // duplicate-name components (registered in permuted positions)
+	var dups []any      // duplicate-name components (registered in permuted positions)
 	type depSpec struct {
 		class, ord int
 		name       string
